@@ -198,7 +198,7 @@ def run(ck, facts):
 
     # ---------------- R4 runtime consistency
     res_adt = rt.adt("result::DiplomatResult")
-    opt_alias = rt.adts.get("diplomat_runtime::result::DiplomatOption")
+    opt_alias = rt.adts.get("diplomat_runtime::result::DiplomatOption") or next((a for k_, a in rt.adts.items() if k_.split("::")[-1] == "DiplomatOption" and a.get("kind") == "alias"), None)
     ck.expect(bool(opt_alias) and opt_alias.get("kind") == "alias" and re.search(r"DiplomatResult<T, \(\)>", opt_alias.get("ty", "")) is not None, "R4", "DiplomatOption/alias", opt_alias.get("ty") if opt_alias else "", "DiplomatOption<T> is no longer DiplomatResult<T, ()>", None)
     lays = {tuple(l["args"]): l["layout"] for l in res_adt["layouts"]}
     unit_ok = [a for a, l in lays.items() if a[1] == "()" and a[0] != "()" and not (l["offsets"][1] == l["fields"][0]["size"] and l["fields"][0]["size"] == _sz(lays, a[0]))]
@@ -310,6 +310,8 @@ def run(ck, facts):
             i0 = C.strip(n["init"])
             if i0.get("k") == "if":
                 cond_ids = {x["id"] for x in C.walk(i0["c"]) if x.get("k") == "local"}
+            elif i0.get("k") == "match":      # `match (ok_ty, err_ty) { (None, None) => .., _ => union }`
+                cond_ids = {x["id"] for x in C.walk(i0["s"]) if x.get("k") == "local"}
         if n.get("k") == "letst" and n["pat"].get("n") in ("ok_line", "err_line"):
             i0 = C.strip(n["init"])
             if i0.get("k") == "if":
